@@ -255,7 +255,6 @@ def takeIdx (st : RecSt) (chunk : Nat) : Outcome (Nat × RecSt) :=
   | none => .panic "index out of bounds: last_index_per_chunk[chunk]"
   | some i => .ok (i % 256, { st with nextIdx := st.nextIdx.set chunk (i + 1) })
 
-def nameBytes (s : String) : Bytes := s.toUTF8.toList
 
 /-- `read_field` / `read_optional_field` / transient default, by role -/
 def readField (steps : List Step) (st : RecSt) (fd : FieldDec) : DProg (Val × RecSt) :=
